@@ -88,7 +88,10 @@ theorem eliminateSelfJoin_congr_pbase {A B : List Rule} {r : Rule}
         rw [ha, hb] at this
         simp only [Option.map_some, Option.some.injEq, pbaseOf, Prod.mk.injEq] at this
         obtain ⟨_, h2, h3, h4, h5, h6⟩ := this
-        simp only [h2, h3, h4, h5, h6]
+        have hsj : subjRefsAreJoinCols r pa = subjRefsAreJoinCols r pb := by
+          unfold subjRefsAreJoinCols refsOfRule
+          simp only [h4, h5, ↓reduceIte]
+        simp only [h2, h3, h4, h5, h6, hsj]
   · rfl
 
 theorem evalRule_congr_pbase {env : Env} {A B : List Rule} {r : Rule}
